@@ -141,6 +141,20 @@ def body_query(desc, F, *args):
         if bool(res["askAnswer"]) != (len(exp) > 0):
             return "ASK answer differs from non-emptiness of the algebra's solutions"
         return None
+    if form == "construct" and desc.get("bnode_template"):
+        from .c10 import FreshB, match_fresh
+        want = []
+        for n_sol, mu in enumerate(exp):
+            for s, p, o in desc["template"]:
+                sv = FreshB(n_sol, s[1]) if s[0] == "b" else ref.term(s, mu)
+                ov = FreshB(n_sol, o[1]) if o[0] == "b" else ref.term(o, mu)
+                if sv is None or ov is None or isinstance(sv, bool):
+                    continue
+                want.append((sv, R.IRIS[p[1]], ov))
+        got = list(res["graph"])
+        if not match_fresh(got, want):
+            return "CONSTRUCT with a blank node in the template: not one fresh node per solution (%s)" % desc["name"]
+        return None
     if form == "construct":
         want = []
         for mu in exp:
@@ -237,6 +251,9 @@ def singles():
     out["join-groups-dup-right"] = ([["group", A], ["group", [["union", [tp(V("o"), Q, V("z"))], [tp(V("o"), Q, V("z"))]]]]], 0)
     out["join-groups-dup-left"] = ([["group", [["union", A, A]]], ["group", [tp(V("o"), Q, V("z"))]]], 0)
     out["minus-dup-left"] = ([["union", A, A], ["minus", [tp(V("o"), Q, V("z"))]]], 0)
+    out["values-minus-bgp"] = ([["values", ["o"], [[C(0)], [C(1)]]], ["minus", A]], 2)
+    out["bgp-minus-values"] = (A + [["minus", [["values", ["o"], [[C(0)]]]]]], 1)
+    out["bgp-minus-values-undef"] = (A + [["minus", [["values", ["s", "o"], [[C(0), None], [None, C(1)]]]]]], 2)
     out["filter-iri-ebv"] = (A + [["filter", V("o")]], 0)
     out["filter-sameterm"] = (A + [["filter", ["sameTerm", V("s"), V("o")]]], 0)
     out["filter-first"] = ([["filter", ["=", V("o"), C(0)]]] + A, 1)
@@ -342,7 +359,7 @@ def obligations(tier, seed):
     rnd = random.Random(seed)
     obs = []
 
-    def add(name, group, nconst, form, data, budget, proj="*", template=None, distinct=False, graphs=False, kind="I"):
+    def add(name, group, nconst, form, data, budget, proj="*", template=None, distinct=False, graphs=False, kind="I", bnode_template=False):
         dd = [(d, "d") for d in data] if not graphs else data
         text = R.render(form, group, proj, template, distinct)
         tag = "".join(p for p, _ in dd) if not graphs else ",".join("%s@%s" % x for x in dd)
@@ -350,7 +367,7 @@ def obligations(tier, seed):
             tag += "-" + kind
         obs.append(dict(oid="q/%s/%s/%s" % (form, name, tag), family="query",
                         desc={"name": name, "group": group, "nconst": nconst, "form": form, "text": text, "proj": proj, "kind": kind,
-                              "template": template, "distinct": distinct, "data": [list(x) for x in dd], "dataset": graphs},
+                              "bnode_template": bnode_template, "template": template, "distinct": distinct, "data": [list(x) for x in dd], "dataset": graphs},
                         sig=[("x%d" % i, "i") for i in range(2 * len(dd) + nconst)], budget=budget))
 
     S = singles()
@@ -371,6 +388,20 @@ def obligations(tier, seed):
         vs = R.vars_in_scope(group)
         template = [[V(vs[0]), Q, V(vs[-1])], [V(vs[-1]), P, V(vs[0])]]
         add(name, group, nc, "construct", ds, 200, template=template)
+    # CONSTRUCT templates with a blank node: one fresh node per solution of the multiset (duplicates from UNION / VALUES / [] included)
+    for name in ("bgp1", "union-same", "values-dup", "union/s-shared", "optional/o-shared", "subselect-project-join", "join-union-dup"):
+        group, nc = S[name]
+        vs = R.vars_in_scope(group)
+        tmpl = [[["b", "x"], Q, V(vs[0])], [["b", "x"], P, ["b", "y"]]]
+        for ds in data_shapes(group, 2)[:2]:
+            obs.append(None)
+            obs.pop()
+            dd = [(d, "d") for d in ds]
+            text = "CONSTRUCT { _:x <%s> ?%s . _:x <%s> _:y . } WHERE %s" % (R.IRIS["q"], vs[0], R.IRIS["p"], R.r_group(group))
+            obs.append(dict(oid="q/construct-bnode/%s/%s" % (name, "".join(ds)), family="query",
+                            desc={"name": name, "group": group, "nconst": nc, "form": "construct", "text": text, "proj": "*", "kind": "I",
+                                  "bnode_template": True, "template": tmpl, "distinct": False, "data": [list(x) for x in dd], "dataset": False},
+                            sig=[("x%d" % i, "i") for i in range(2 * len(dd) + nc)], budget=300))
     # explicit projection / DISTINCT
     for name in ("bgp2", "optional/o-shared", "union/o-shared"):
         group, nc = S[name]
